@@ -35,7 +35,7 @@ func runC08(c *core.Ctx) {
 	}
 	c.Doc("C08.readn", "ReadN: nil only when complete; accumulates into buf[size:]; data+EOF is a success", 3)
 	ruleReadNComplete(c, "C08.readn")
-	c.Doc("C08.readn-calls", "every ReadN call passes the length of the buffer it fills", 10)
+	c.Doc("C08.readn-calls", "every ReadN call passes the length of the buffer it fills", 3)
 	ruleReadNCalls(c, d, "C08.readn-calls")
 	c.Doc("C08.error-flow", "every decoder call inside the decoder set propagates its error to a non-nil error return", 180)
 	n := ruleErrorFlow(c, d, "C08.error-flow", nil)
